@@ -45,9 +45,10 @@ VARIABLES db, tx, cur,       \* database states
           sess,              \* "none" | "open" | "aborted"
           pendNew, pendDel,  \* objects created / deleted by the session and not flushed yet: sets of <<e, k>>
           known, loadedB,    \* lower bounds of the identity map: <<e,k>> indexed by pk; B objects with u indexed
-          ev                 \* observation record of the last call
+          ev,                \* observation record of the last call
+          view               \* what every read must return in this state: a function of cur (no extra states)
 
-vars == <<db, tx, cur, sess, pendNew, pendDel, known, loadedB, ev>>
+vars == <<db, tx, cur, sess, pendNew, pendDel, known, loadedB, ev, view>>
 data == <<db, tx, cur, sess, pendNew, pendDel>>
 
 NoA == [ex |-> FALSE, v |-> 0]
@@ -109,9 +110,16 @@ DelA(s, a) ==
     ELSE <<FALSE, s, {}>>
 
 ---------------------------------------------------------------------------
-Init == /\ db = EmptyDb /\ tx = EmptyDb /\ cur = EmptyDb
-        /\ sess = "none" /\ pendNew = {} /\ pendDel = {} /\ known = {} /\ loadedB = {}
-        /\ ev = Ev("Init", "-", 0, 0, 0, "ok", {})
+(* the answers of all reads in a state, derived from the session's view (C10, C12): the replay may ask any of
+   them at any point of an open, conflict-free session without leaving the state *)
+ViewOf(s) == [kids   |-> [a \in AIds |-> IF s.A[a].ex THEN Kids(s, a) ELSE {}],
+              links  |-> [a \in AIds |-> Links(s, a)],
+              linksB |-> [b \in BIds |-> LinksB(s, b)],
+              v      |-> [a \in AIds |-> s.A[a].v],
+              u      |-> [b \in BIds |-> s.B[b].u],
+              ref    |-> [b \in BIds |-> s.B[b].a],
+              liveA  |-> LiveA(s), liveB |-> LiveB(s),
+              byU    |-> [y \in Vals |-> {b \in BIds : s.B[b].ex /\ s.B[b].u = y}]]
 
 (* seeded initial databases (the harness writes them into the file with plain SQL), so that short behaviours
    already meet existing rows, unique values and links *)
@@ -131,6 +139,12 @@ SeedDbs == {EmptyDb, Seed1, Seed2, Seed3}
 InitSeeded == /\ db \in SeedDbs /\ tx = db /\ cur = db
               /\ sess \in {"none", "open"} /\ pendNew = {} /\ pendDel = {} /\ known = {} /\ loadedB = {}
               /\ ev = Ev("Init", "-", 0, 0, 0, "ok", {})
+              /\ view = ViewOf(cur)
+
+Init == /\ db = EmptyDb /\ tx = EmptyDb /\ cur = EmptyDb
+        /\ sess = "none" /\ pendNew = {} /\ pendDel = {} /\ known = {} /\ loadedB = {}
+        /\ ev = Ev("Init", "-", 0, 0, 0, "ok", {})
+        /\ view = ViewOf(cur)
 
 Begin == /\ sess = "none"
          /\ sess' = "open" /\ cur' = db /\ tx' = db
@@ -532,7 +546,7 @@ Reads  == \/ \E k \in AIds : GetV(k) \/ Coll(k) \/ LColl(k)
 
 Control == Begin \/ Tau \/ Flush \/ Commit \/ Rollback \/ EndOk \/ EndExc
 
-Next == Modify \/ Reads \/ Control
+Next == (Modify \/ Reads \/ Control) /\ view' = ViewOf(cur')
 
 Spec == Init /\ [][Next]_vars
 SpecSeeded == InitSeeded /\ [][Next]_vars
